@@ -16,6 +16,9 @@
 (*                              signed zone attached to its response;         *)
 (*                              verdict = verify_nsec on exactly these,       *)
 (*                              full = verdict of DnssecDnsHandle             *)
+(*   kind = "wild": ce is the wildcard parent named by the RRSIG of the        *)
+(*   answered RRset; riders = further RRsets in the answer section expanded   *)
+(*   from other wildcards of the zone (not part of the claim, see NsecOps).    *)
 (* Every verify event is judged on its own with the operators of NsecOps:     *)
 (*   soundness     verdict = Secure  =>  Entails(proof, q, t, kind, ce)       *)
 (*   completeness  prescribed / server proof of a negative or wildcard        *)
